@@ -380,7 +380,7 @@ func (c *Ctx) unprotectedRegion() *Reach {
 }
 
 func runC02(c *Ctx) {
-	r, a := c.R, c.A
+	r := c.R
 	r.Rule("R1", "every potentially panicking instruction (index, slice, string index, unchecked type assertion, division, nil-map update, explicit panic, close) in the unprotected region is proved safe for all inputs")
 	r.Rule("R2", "every invocation of handler code is under a deferred call of Config.Recover, one handler per frame; the default hook calls recover() directly and invokes no method of the recovered value")
 	r.Rule("R3", "in the receive goroutine the only exits of the read loop are on the error result of the framing read; a line the parser rejects returns to the loop head; a line it accepts is handed to the inbound queue by a blocking send before the next read")
@@ -427,12 +427,9 @@ func runC02(c *Ctx) {
 
 	// R3
 	var producer *ssa.Function
-	for _, m := range a.Members {
-		for _, op := range ChanOps(m) {
-			if op.Kind == "send" && c.ChanMayBe(op.Chan, a.In) {
-				producer = m
-			}
-		}
+	pf := c.producerFrame()
+	if pf != nil {
+		producer = pf.Member
 	}
 	r.Anchor("R3", "receive goroutine", producer != nil)
 	if producer != nil {
@@ -472,7 +469,13 @@ func runC02(c *Ctx) {
 			// the read is re-executed after a rejected line: from the parser call every path reaches the read or a return guarded as above
 			nParse := 0
 			funcInstrs(producer, func(in ssa.Instruction) {
-				if call, ok := in.(*ssa.Call); ok && call.Call.StaticCallee() != nil && call.Call.StaticCallee().Name() == "ParseLine" {
+				call, ok := in.(*ssa.Call)
+				// the parser call itself, or the call of the per-line helper that contains it
+				isParse := ok && call.Call.StaticCallee() != nil && call.Call.StaticCallee().Name() == "ParseLine"
+				if ok && pf.Via != nil && call == pf.Via {
+					isParse = true
+				}
+				if isParse {
 					nParse++
 					back := ReachFrom(in, false, nil)[read]
 					r.Add("R3", "continue-after-parse:"+c.FuncKey(producer), c.InstrPos(in), c.FuncKey(producer), "after parsing (accepted or rejected) control returns to the framing read", back, "read reachable from the parse call")
